@@ -13,7 +13,7 @@ func init() { register("C01", "exploration", runC01) }
 
 // C01: differential monitor: generated mutation programs against the reference data model, full re-read after every request.
 func runC01(run *common.Run) {
-	run.Rule = "case = one generated mutation program (20-60 MutateRow/MutateRows requests over 8 colliding row keys, 2+1 families, 5 qualifiers, boundary/invalid timestamps, moving injected clock) run on one engine; after every request the whole table and the touched rows are re-read and compared cell-for-cell with the reference model. Non-trivial = the program had at least one delete that removed a cell, one rejected request and one server-time write; distinct by program hash x engine."
+	run.Rule = "case = one generated mutation program (20-60 MutateRow/MutateRows requests over 8 colliding row keys, 2+1 families, 5 qualifiers, boundary/invalid timestamps, moving injected clock; every fourth program is a wide-column program: 2 rows x 4 columns, 64 timestamps, up to 12 mutations per request, so columns hold dozens of versions that are overwritten in place and cut by narrow delete ranges) run on one engine; after every request the whole table and the touched rows are re-read and compared cell-for-cell with the reference model. Non-trivial = the program had at least one delete that removed a cell, one rejected request and one server-time write; distinct by program hash x engine."
 	run.Assumptions = []string{"reference model written from the data-model documentation", "family order within a row is unspecified and not compared", "error codes are not compared, only OK vs not-OK"}
 	j := common.NewJournal("C01")
 	nprog := run.N(600, 6000)
@@ -73,8 +73,17 @@ func c01Program(run *common.Run, prog int, engine string, idx int) {
 	m := model.NewTable(gen.Fams...)
 	o := gen.Opts{InvalidPct: 6}
 	nsteps := r.Range(20, 60)
+	keys := gen.Keys
+	maxMuts := 4
+	wide := prog%4 == 3
+	if wide {
+		// wide-column programs: two rows, 2x2 columns, 64 timestamps, up to 12 mutations per request
+		o = gen.Opts{InvalidPct: 1, Wide: 64}
+		keys = gen.Keys[:2]
+		maxMuts = 12
+	}
 	var steps []c01Step
-	var deletesThatRemoved, rejected, serverTime int
+	var deletesThatRemoved, rejected, serverTime, overwrites int
 	fail := func(what string) {
 		run.Violation("prog", idx, what, map[string]any{"engine": engine, "steps": steps})
 	}
@@ -91,8 +100,9 @@ func c01Program(run *common.Run, prog int, engine string, idx int) {
 		srv.SetClock(clock)
 		touched := map[string]bool{}
 		if r.Chance(2, 3) {
-			key := common.Pick(r, gen.Keys)
-			muts := gen.Mutations(r, o, 1, 4)
+			key := common.Pick(r, keys)
+			muts := gen.Mutations(r, o, 1, maxMuts)
+			overwrites += countOverwrites(m, key, muts)
 			verdict, newRow := m.Apply(key, muts, clock)
 			st := drive.MutateRow(srv.Data, table, key, muts)
 			step := c01Step{Req: fmt.Sprintf("MutateRow(%q, %s)", key, model.MutsString(muts)), Clock: clock, Expect: verdict.String(), Observed: st.String()}
@@ -120,7 +130,7 @@ func c01Program(run *common.Run, prog int, engine string, idx int) {
 			n := r.Range(1, 5)
 			var entries []drive.Entry
 			for e := 0; e < n; e++ {
-				entries = append(entries, drive.Entry{Key: common.Pick(r, gen.Keys), Muts: gen.Mutations(r, o, 1, 3)})
+				entries = append(entries, drive.Entry{Key: common.Pick(r, keys), Muts: gen.Mutations(r, o, 1, max(3, maxMuts/2))})
 			}
 			st, per, malformed := drive.MutateRows(srv.Data, table, entries)
 			desc := "MutateRows("
@@ -141,6 +151,7 @@ func c01Program(run *common.Run, prog int, engine string, idx int) {
 			}
 			// entries are applied in request order, each atomically
 			for e, ent := range entries {
+				overwrites += countOverwrites(m, ent.Key, ent.Muts)
 				verdict, newRow := m.Apply(ent.Key, ent.Muts, clock)
 				step.Expect += verdict.String() + " "
 				touched[ent.Key] = true
@@ -182,12 +193,42 @@ func c01Program(run *common.Run, prog int, engine string, idx int) {
 	}
 	h := common.Hash64(fmt.Sprint(steps), engine)
 	run.Case(h, deletesThatRemoved > 0 && rejected > 0 && serverTime > 0)
+	if wide {
+		run.Count("wide_programs", 1)
+		run.Max("max_versions_in_one_column", int64(maxVersions(m)))
+		run.Count("overwrites_of_existing_timestamp", int64(overwrites))
+	}
 	run.Count("rejected_requests", int64(rejected))
 	run.Count("deletes_that_removed_cells", int64(deletesThatRemoved))
 	run.Count("server_time_writes", int64(serverTime))
 	if prog < 2 && engine == "btree" {
 		run.Sample(map[string]any{"engine": engine, "steps": steps[:min(len(steps), 6)]})
 	}
+}
+
+// countOverwrites: SetCells of the request that hit a (column, timestamp) already stored before the request.
+func countOverwrites(m *model.Table, key string, muts []model.Mut) int {
+	n := 0
+	for _, mu := range muts {
+		if mu.Kind == model.SetCell && mu.TS >= 0 {
+			if _, ok := m.Rows[key][mu.Fam][mu.Qual][mu.TS]; ok {
+				n++
+			}
+		}
+	}
+	return n
+}
+
+func maxVersions(m *model.Table) int {
+	n := 0
+	for _, row := range m.Rows {
+		for _, fam := range row {
+			for _, col := range fam {
+				n = max(n, len(col))
+			}
+		}
+	}
+	return n
 }
 
 func hasDelete(ms []model.Mut) bool {
